@@ -148,6 +148,30 @@ pub fn directed() -> Vec<(&'static str, Scn)> {
                 "sched": {"explicit": ["c2s:HSACK#0:hold2", "c2s:DATA#1:drop", "c2s:DATA#2:drop", "c2s:DATA#3:drop",
                     "c2s:DATA#4:drop", "c2s:DATA#5:hold2", "s2c:ACK#0:hold2", "s2c:ACK#1:hold2"]}})),
         ),
+        // receive buffer beyond the 16-bit window field: the reader lags until
+        // the window closes, then drains with reads far below half the buffer
+        (
+            "big-recv-buffer-small-reads",
+            scn(json!({"cfg": {"recv_cap": 131072}, "c2s": {"total": 171072, "wchunks": [171072], "rbufs": [4096], "read_pause": 2},
+                "s2c": {"total": 0, "rbufs": [1], "write_delay": 2}, "sched": {"explicit": []}})),
+        ),
+        (
+            "big-recv-buffer-jumbo-v6",
+            scn(json!({"cfg": {"recv_cap": 262144, "send_cap": 262144, "mtu": 9000, "v6": true},
+                "c2s": {"total": 5, "wchunks": [5], "rbufs": [100]},
+                "s2c": {"total": 393216, "wchunks": [65536], "rbufs": [8192], "read_pause": 3}, "sched": {"explicit": []}})),
+        ),
+        // long round trip (holds up to 8 rounds, no drop): the server has spent
+        // SYN-ACK retransmits when the client's FIN overtakes the handshake ACK
+        // and completes the handshake; those attempts must not count against the
+        // server's first data flight
+        (
+            "fin-completes-handshake-after-synack-retx",
+            scn(json!({"cfg": {"recv_cap": 1}, "c2s": {"total": 0, "rbufs": [1]},
+                "s2c": {"total": 1, "wchunks": [1], "rbufs": [1]},
+                "sched": {"explicit": ["s2c:SYNACK#0:hold6", "s2c:SYNACK#1:hold7", "s2c:SYNACK#2:hold6", "c2s:HSACK#0:hold1",
+                    "s2c:DATA#0:hold3", "s2c:DATA#1:hold8", "c2s:ACK#2:hold6", "c2s:WINUPD#0:hold7", "c2s:ACK#3:hold6", "c2s:ACK#4:hold5"]}})),
+        ),
     ]
 }
 
@@ -221,12 +245,41 @@ pub fn dfs_variants(ctx: &Ctx) -> Vec<DfsSpec> {
                         start,
                         depth,
                         max_drops: 2,
-                        d: 2,
+                        holds: vec![1, 2],
                         max_execs,
                         deadline: Some(ctx.start + std::time::Duration::from_secs_f64(ctx.pick(40.0, 700.0))),
                     });
                 }
             }
+        }
+    }
+    // long-latency variants: a hold of 5 rounds each way makes the round trip
+    // (11 rounds) several retransmit periods long, so handshake and data
+    // retransmissions are already spent when the answers arrive; still inside
+    // the envelope with up to 2 drops (oracle::max_hold_for)
+    for (a, b) in [(1usize, 1usize), (1, 0), (0, 1), (2, 1)] {
+        for start in [0usize, 2] {
+            let mk = |n: usize| DirSpec {
+                total: n * seg,
+                wchunks: vec![(n * seg).max(1)],
+                rbufs: vec![4096],
+                ..DirSpec::default()
+            };
+            v.push(DfsSpec {
+                scn: Scn {
+                    cfg: cfg.clone(),
+                    c2s: mk(a),
+                    s2c: mk(b),
+                    sched: Sched::Explicit(vec![]),
+                    order: Order::Emission,
+                },
+                start,
+                depth: ctx.pick(9, 12),
+                max_drops: 2,
+                holds: vec![5],
+                max_execs,
+                deadline: Some(ctx.start + std::time::Duration::from_secs_f64(ctx.pick(40.0, 700.0))),
+            });
         }
     }
     v
@@ -259,12 +312,12 @@ fn run_dfs(ctx: &Ctx, idx: u64) -> ScenarioOut {
         let (f, kind) = k.split_once(':').unwrap();
         out.count(&format!("fault_matrix.{f}.{kind}"), *n);
     }
-    out.saw("dfs_variant", format!("{} start={} depth={}", spec.scn.canon(), spec.start, spec.depth));
+    out.saw("dfs_variant", format!("{} start={} depth={} holds={:?}", spec.scn.canon(), spec.start, spec.depth, spec.holds));
     out.sample = Some(json!({
         "part": "dfs",
         "scn": spec.scn.to_json(),
         "choice_window": [spec.start, spec.start + spec.depth],
-        "max_drops": spec.max_drops, "max_hold": spec.d,
+        "max_drops": spec.max_drops, "holds": spec.holds,
         "executions": st.execs, "paths": st.paths, "states": st.states, "transitions": st.transitions,
         "truncated": st.truncated,
         "example_paths": st.sample_paths,
@@ -401,7 +454,7 @@ pub fn e2e_out(d: &E2e) -> ScenarioOut {
     for (k, n) in &o.stats.delayed {
         out.count(&format!("e2e_rule_delayed.{k}"), *n);
     }
-    let env = o.stats.drops < d.cfg.retx_max && o.stats.max_delay_ms < d.cfg.retx_threshold;
+    let env = crate::oracle::max_hold_for(&d.cfg, o.stats.drops).map(|m| o.stats.max_delay_ms <= m).unwrap_or(false);
     out.count(if env { "e2e_inside_envelope" } else { "e2e_outside_envelope" }, 1);
     for x in &o.hist.dirs {
         out.count("bytes_read_and_verified", x.read_off);
